@@ -50,6 +50,7 @@ VALUES = {
     "string-list": [("a b", "['a', 'b']"), ("", "[]"), ("x", "['x']")],
     "inet-address": [("Host:80", "('host', 80)"), ("8080", "('', 8080)"), ("host:x", None)],
     "locale": [("C", "'C'"), ("no_SUCH.locale", None)],
+    "boomkey": [("v1", "'v1'"), ("x", "'x'")],     # zcv.dts.boomkey: identity, raises KeyError on "BOOM"
 }
 
 
@@ -91,7 +92,7 @@ def _suffixed(text, table):
 def convert(dt, text):
     """Reference meaning of the standard datatypes on the (ASCII, stripped)
     value texts used by the vocabularies: repr of the value, or None."""
-    if dt in ("string", "null"):
+    if dt in ("string", "null", "boomkey"):
         return repr(text)
     if dt == "integer":
         v = _integer(text)
